@@ -137,10 +137,14 @@ def run(ctx):
                     p.sort_fields()
                 elif op == "sort-tie":
                     # a key with many ties: the sort is stable with respect to the CURRENT order
-                    which = rng.choice(["constant", "first letter", "length"])
-                    kf = {"constant": lambda nm: 0, "first letter": lambda nm: str(nm)[:1].lower(), "length": lambda nm: len(str(nm))}[which]
+                    # (a key that puts the raw name into a tuple is left out: tuples compare with == first, which is
+                    # case-insensitive for the library's name objects, so its outcome is not that of plain strings)
+                    which = rng.choice(["constant", "first letter", "length", "the name itself", "(starts with X-, lower-cased name)"])
+                    kf = {"constant": lambda nm: 0, "first letter": lambda nm: str(nm)[:1].lower(), "length": lambda nm: len(str(nm)),
+                          "the name itself": lambda nm: nm,
+                          "(starts with X-, lower-cased name)": lambda nm: (nm.startswith("X-"), nm.lower())}[which]
                     ops.append([pi, "sort_fields", "key=" + which])
-                    m.paras[pi] = sorted(mp, key=lambda e: kf(e[0]))
+                    m.paras[pi] = sorted(mp, key=lambda e: kf(str(e[0])))      # the model sorts plain strings
                     p.sort_fields(key=kf)
                 elif op == "set":
                     name = rng.choice(names)
